@@ -1,13 +1,101 @@
 /-
 C08 — property theorems (statements only; proofs in Proofs*.lean).
+
+Model: YouVerif/C08/Model.lean (`step`, `run`).  `Safe c s ops` is the call discipline the real callers keep:
+  * `OpOk`: `RemoveValidator` is not called (it has no caller), and a stale `old` passed to `UpdateValidator`
+    agrees with the stored record on (role, online, stake, token) — the one stale call in the tree
+    (forced settlement in distributeRewards) differs in reward fields only;
+  * `NonNeg`: after every operation no visible validator has a negative stake or token total.
 -/
-import YouVerif.C08.Proofs
+import YouVerif.C08.ProofsProps
 
 namespace YouVerif.C08
 
-/-- Right after a record was added to a well-formed bucket, subtracting it again is exact:
-    the clamp of `subStake`/`subToken` does not fire and the `uint64` counter does not wrap. -/
-theorem bucket_sub_after_add_exact (b : Bucket) (k : Key) (hb : b.Wf) (hk : k.nonneg) :
-    (b.addK k).subK k = b := Bucket.subK_addK hb hk
+/-- **The statistics equal the recomputation**, for every operation sequence (creations, raw and stale updates,
+    take-effect deposits/withdrawals/status changes/delegations, settlements, penalties, snapshots and reverts to any
+    live snapshot, Finalise, IntermediateRoot with deletion of emptied validators, Commit+reload, Copy). -/
+theorem stats_eq_recompute (c : Cfg) (ops : List Op) (h : Safe c St.init ops) :
+    (run c St.init ops).stats = summarize (listed (run c St.init ops)) :=
+  (run_inv c ops St.init Inv.init h).stats_eq
+
+/-- The same from any state satisfying the invariant (e.g. a genesis state), not only the empty one. -/
+theorem stats_eq_recompute_from (c : Cfg) (s : St) (ops : List Op) (hs : Inv s) (h : Safe c s ops) :
+    (run c s ops).stats = summarize (listed (run c s ops)) :=
+  (run_inv c ops s hs h).stats_eq
+
+/-- **Clamping hides nothing**: in every reachable state, subtracting any visible record from the statistics with the
+    clamped `SubVal` gives exactly what the unclamped subtraction gives (no clamp fires, no counter wraps).
+    Every subtraction `step` performs under `Safe` is of a key equal to a visible record's key. -/
+theorem clamp_never_fires (c : Cfg) (ops : List Op) (h : Safe c St.init ops) (a : Addr) (v : Val)
+    (hv : get (run c St.init ops).vals a = some v) :
+    decrK (run c St.init ops).stats v.key = decrU (run c St.init ops).stats v.key :=
+  (run_inv c ops St.init Inv.init h).clamp hv
+
+/-- **The index lists exactly the existing validators.** -/
+theorem index_eq_dom (c : Cfg) (ops : List Op) (h : Safe c St.init ops) (a : Addr) :
+    a ∈ (run c St.init ops).index ↔ (get (run c St.init ops).vals a).isSome :=
+  (run_inv c ops St.init Inv.init h).index_dom a
+
+/-- The invariant survives undoing any number of journal entries (so: after a revert to any live snapshot). -/
+theorem revert_keeps_stats (c : Cfg) (ops : List Op) (h : Safe c St.init ops) (id : Nat) (s' : St)
+    (hr : revertTo (run c St.init ops) id = some s') : s'.stats = summarize (listed s') :=
+  ((run_inv c ops St.init Inv.init h).revertTo hr).stats_eq
+
+/-! ### Not proved in this round (statements kept, checked by the implementation-level oracle on every case) -/
+
+def sumTok (l : List Dlg) : Int := (l.map (·.token)).sum
+def sumStk (l : List Dlg) : Int := (l.map (·.stake)).sum
+
+/-- totals = own + delegations, every stake = token / unit -/
+def ValWF (u : Int) (v : Val) : Prop :=
+  v.token = v.selfToken + sumTok v.dlgs ∧ v.stake = v.selfStake + sumStk v.dlgs ∧
+  v.selfStake = v.selfToken / u ∧ ∀ x ∈ v.dlgs, x.stake = x.token / u
+
+/-- handler-level operations (no raw update of a total) -/
+def Op.handler : Op → Bool
+  | .upd _ f _ => !(f == .token || f == .stake || f == .selfToken || f == .selfStake)
+  | .updStale .. => false
+  | .remove _ => false
+  | .deleg .. => false
+  | .create _ _ _ token stake _ _ _ => decide (0 ≤ token) && stake == token / 1000000000000000000
+  | _ => true
+
+/-- `token_stake_sums`: full statement, NOT proved (sampled: oracle clause (2) after every op of every case). -/
+def token_stake_sums_statement : Prop :=
+  ∀ (c : Cfg) (ops : List Op), c.unit = 1000000000000000000 → (∀ op ∈ ops, op.handler = true) →
+    ∀ a v, get (run c St.init ops).vals a = some v → ValWF c.unit v
+
+/-- `delegation_links_agree`: full statement, NOT proved, and false without the extra hypothesis that no penalty
+    consumes a whole delegation (`penalty_unlinks_counterexample`, known finding F-C08f). -/
+def delegation_links_agree_statement : Prop :=
+  ∀ (c : Cfg) (ops : List Op), (∀ op ∈ ops, op.handler = true) → (∀ op ∈ ops, ∀ a x, op ≠ .penal a x) →
+    ∀ d a x v, getAcct (run c St.init ops).accts d = some x → get (run c St.init ops).vals a = some v →
+      (x.dlgs.contains a ↔ (findDlg v.dlgs d).isSome)
+
+/-! ### Witnesses on the model (tests on literals, decided by evaluation) -/
+
+/-- F-C08f on the model: a penalty larger than the validator's tokens consumes the delegation; the validator forgets
+    the delegator, the delegator's account still lists the validator. (Replayed on the real code by the probe.) -/
+theorem penalty_unlinks_counterexample :
+    let s := run {} St.init [.create 5 1 1 5000000000000000001 5 1 0 2500, .mkacct 2,
+                             .dadd 2 5 1000000000000000002, .penal 5 54000000000000000000]
+    (getAcct s.accts 2).map (·.dlgs) = some [5] ∧ (get s.vals 5).map (·.dlgs) = some [] := by
+  decide
+
+/-- `RemoveValidator` + flush subtracts the record twice (no caller in the tree; outside `OpOk`). -/
+theorem remove_then_flush_double_decrement :
+    let s := run {} St.init [.create 1 1 1 5000000000000000000 5 1 0 0, .create 2 1 1 7000000000000000000 7 1 0 0,
+                             .remove 1, .iroot true]
+    s.stats.kAll.onStake = 2 ∧ (summarize (listed s)).kAll.onStake = 7 := by
+  decide
+
+/-- non-vacuity of `Safe`: a run with a stale update, a forced-offline withdrawal of a delegation, a penalty, reverts,
+    deletion of an emptied validator at the flush, reload and Copy satisfies it -/
+example : Safe { minStake := fun _ => 5 } St.init
+    [.create 1 1 1 5000000000000000000 5 1 0 2500, .create 2 3 0 3000000000000000000 3 1 500 0, .mkacct 1, .snap,
+     .dadd 1 1 2000000000000000000, .updStale 1 .rewards 7 .rewards 9, .snap, .dsub 1 1 2000000000000000000 1,
+     .penal 1 100000000000000000, .revert 1, .withdraw 2 3000000000000000000 1 2, .iroot true, .copy,
+     .deposit 1 1000000000000000000, .reload true, .settle 1] :=
+  safeB_sound _ _ _ (by decide)
 
 end YouVerif.C08
